@@ -5,7 +5,9 @@ and in a directory prepared with leftovers (fabricated stale files, or the debri
 fail at the i-th write/append/unlink call).  Oracle = the property: byte-identical result files, and after the
 successful run no intermediate file *of that run* (its `<prefix>scores_metadata_<k>` chunk files, its level files)
 remains; files of other runs that this run never writes may stay.  The CLI verify step (`if config.verify_pin:` block
-of mokapot/mokapot.py) is extracted with `ast` and executed with stub `config` / `logging` objects."""
+of mokapot/mokapot.py) is extracted with `ast` and executed with stub `config` / `logging` objects.  The stand-alone
+rollup tool (`mokapot.brew_rollup.main`) is run with the directory it reads and writes spelled in different ways, with
+result files of earlier rollups lying in it; oracle = an independent rollup of the genuine input tables only."""
 import ast
 import json
 import logging
@@ -814,6 +816,256 @@ def check_protein_level_cleanup(tier, seed):
     return ck
 
 
+# ------------------------------------------------------------------------------------------ (5) stand-alone rollup tool
+# Property: mokapot.brew_rollup.main never takes its own earlier result files as input, however the directory it
+# reads from and writes to is spelled.  The real `main` is run on generated per-experiment result files; the oracle
+# is the definition of a rollup computed from the genuine input tables only (the best scoring row of every entity),
+# plus byte-identity with the same call on copies of the genuine files in clean, separate directories.
+ROLL_OUT_LEVELS = {"psm": ("precursor", "peptide"), "precursor": ("precursor", "peptide"), "peptide": ("peptide",)}
+ROLL_EARLIER = ("none", "real-run-with-withdrawn-experiment", "fabricated-results", "junk-results")
+ROLL_DEST_DIRTY = "different-directories-earlier-results-in-dest"
+# name -> (class used in the case ids, src argument, dest argument, working directory); {A} absolute path of the
+# directory, {P} its parent (the directory is {P}/out, {P}/side exists), {L} a symlink to it, {O} another directory;
+# None = option omitted (the tool then uses './')
+ROLL_SPELLINGS = {
+    "same-string-absolute": ("same-string", "{A}", "{A}", None),
+    "same-string-relative": ("same-string", "out", "out", "{P}"),
+    "both-omitted-cwd": ("same-string", None, None, "{A}"),
+    "src-absolute-dest-relative": ("absolute-vs-relative", "{A}", "out", "{P}"),
+    "src-relative-dest-absolute": ("absolute-vs-relative", "out", "{A}", "{P}"),
+    "src-trailing-slash": ("redundant-slash-or-dot", "{A}/", "{A}", None),
+    "dest-dot-prefix": ("redundant-slash-or-dot", "out", "./out", "{P}"),
+    "src-dotdot-component": ("dotdot-component", "{P}/side/../out", "{A}", None),
+    "dest-dotdot-component": ("dotdot-component", "out", "side/../out", "{P}"),
+    "src-symlink": ("symlink", "{L}", "{A}", None),
+    "dest-symlink": ("symlink", "{A}", "{L}", None),
+    "src-omitted-cwd": ("omitted-option-vs-explicit-cwd", None, "{A}", "{A}"),
+    "dest-omitted-cwd": ("omitted-option-vs-explicit-cwd", "{A}", None, "{A}"),
+    "different-directories-earlier-results-in-src": ("different-directories-earlier-results-in-src", "{A}", "{O}", None),
+    ROLL_DEST_DIRTY: (ROLL_DEST_DIRTY, "{A}", "{O}", None),
+}
+
+
+def roll_tables(dseed, exps, n, level, shift=0.0):
+    """{(experiment, 'targets'|'decoys'): table in the layout of mokapot's result files}, n rows each, sorted by
+    descending score (as mokapot writes them), continuous scores, entities drawn with repetition from a pool shared
+    by all experiments (so the rollup has something to do)"""
+    rng = np.random.default_rng(dseed)
+    out = {}
+    for exp in exps:
+        for kind, loc in (("targets", 1.5), ("decoys", 0.0)):
+            pep = ["PEP%s%dK" % (kind[0].upper(), j) for j in rng.integers(0, n, n)]
+            df = pd.DataFrame({"PSMId": ["%s_%s_%d" % (exp, kind[0], i) for i in range(n)], "peptide": pep,
+                               "score": np.sort(rng.normal(loc + shift, 1.0, n))[::-1],
+                               "q-value": np.linspace(0.001, 1.0, n), "posterior_error_prob": np.linspace(0.001, 1.0, n),
+                               "proteinIds": ["PROT%d" % (i % 5) for i in range(n)]})
+            if level != "peptide":
+                df.insert(1, "precursor", ["%s/%d" % (q, z) for q, z in zip(pep, rng.integers(2, 4, n))])
+            out[(exp, kind)] = df
+    return out
+
+
+def roll_write(tables, directory, level, fmt):
+    for (exp, kind), df in tables.items():
+        path = Path(directory) / ("%s.%s.%ss%s" % (exp, kind, level, fmt))
+        if fmt:
+            df.to_parquet(path, index=False)
+        else:
+            df.to_csv(path, sep="\t", index=False)
+
+
+def roll_expected(tables, level):
+    """{(out level, kind): {psm id: (entity, score)}}: of all genuine rows the best scoring one per entity"""
+    rows = []
+    for (exp, kind), df in tables.items():
+        t = df.copy()
+        t["_target"] = kind == "targets"
+        rows.append(t)
+    rows = pd.concat(rows, ignore_index=True)
+    assert rows["score"].is_unique
+    want = {}
+    for lev in ROLL_OUT_LEVELS[level]:
+        best = rows.loc[rows.groupby(lev)["score"].idxmax()]
+        for kind in ("targets", "decoys"):
+            sel = best[best["_target"] == (kind == "targets")]
+            want[(lev, kind)] = {str(i): (str(e), float(s)) for i, e, s in zip(sel["PSMId"], sel[lev], sel["score"])}
+    return want
+
+
+def roll_main(level, src, dest, root):
+    from mokapot import brew_rollup
+    argv = ["--level", level, "-v", "0"]
+    if src is not None:
+        argv += ["-s", src]
+    if dest is not None:
+        argv += ["-d", dest]
+    if root != "rollup":
+        argv += ["-r", root]
+    brew_rollup.main(argv)
+
+
+def roll_result_names(level, fmt, root):
+    return {(lev, kind): "%s.%s.%ss%s" % (root, kind, lev, fmt)
+            for lev in ROLL_OUT_LEVELS[level] for kind in ("targets", "decoys")}
+
+
+def roll_judge(out_dir, want, genuine_ids, level, fmt, root, ref, tag, note):
+    bad = []
+    for (lev, kind), name in sorted(roll_result_names(level, fmt, root).items()):
+        path = Path(out_dir) / name
+        if not path.is_file():
+            bad.append(("rollup-result-file-missing:" + tag, "%s missing after the run%s" % (name, note)))
+            continue
+        try:
+            got = pd.read_parquet(path) if fmt else pd.read_csv(path, sep="\t")
+            ids = [str(v) for v in got["psm_id"]]
+            rows = {i: (str(e), float(s)) for i, e, s in zip(ids, got[lev], got["score"])}
+        except Exception as e:
+            bad.append(("rollup-result-file-unreadable:" + tag, "%s: %r%s" % (name, e, note)))
+            continue
+        exp = want[(lev, kind)]
+        foreign = sorted(set(ids) - genuine_ids)
+        if foreign:
+            bad.append(("rollup-earlier-results-taken-as-input:" + tag,
+                        "%s holds %d row(s) that are in none of the input files, e.g. %s (%d rows, expected %d)%s"
+                        % (name, len(foreign), foreign[:3], len(ids), len(exp), note)))
+        elif (len(ids) != len(rows) or set(rows) != set(exp)
+              or any(rows[i][0] != exp[i][0] or abs(rows[i][1] - exp[i][1]) > 1e-9 for i in exp)):
+            bad.append(("rollup-results-differ-from-independent-rollup:" + tag,
+                        "%s: %d rows / %d ids, expected %d; missing %s, surplus %s%s"
+                        % (name, len(ids), len(rows), len(exp), sorted(set(exp) - set(rows))[:3],
+                           sorted(set(rows) - set(exp))[:3], note)))
+        elif ref is not None and path.read_bytes() != ref.get(name):
+            bad.append(("rollup-results-changed-by-leftovers:" + tag,
+                        "%s has the expected rows but differs from the run in clean directories%s" % (name, note)))
+    return bad
+
+
+def roll_result_layout(df):
+    return df.rename(columns={"PSMId": "psm_id", "q-value": "q_value"})
+
+
+def roll_case(cfg):
+    old_cwd = os.getcwd()
+    with scratch("c09r_") as d:
+        try:
+            return _roll_case(cfg, Path(d).resolve())
+        finally:
+            os.chdir(old_cwd)
+
+
+def _roll_case(cfg, base):
+    level, fmt, root, n = cfg["level"], cfg["fmt"], cfg["root"], cfg["n"]
+    spelling, earlier = cfg["spelling"], cfg["earlier"]
+    err = None
+    # like run_spec: the data seed is advanced (by 1000) until the reference run in clean directories and the real
+    # earlier run succeed (PEP estimation gives up on some small tables; not the subject here)
+    for k in range(20):
+        dseed = cfg["dseed"] + 1000 * k
+        att = base / ("t%d" % k)
+        parent, work, other, link = att / "w", att / "w" / "out", att / "elsewhere", att / "lnk"
+        ref_src, ref_dest = att / "ref_src", att / "ref_dest"
+        for p in (att, parent, work, parent / "side", other, ref_src, ref_dest):
+            p.mkdir()
+        os.symlink(work, link, target_is_directory=True)
+        where = other if spelling == ROLL_DEST_DIRTY else work      # the directory the earlier results lie in
+        genuine = roll_tables(dseed, ("a", "b"), n, level)
+        roll_write(genuine, ref_src, level, fmt)
+        roll_write(genuine, work, level, fmt)
+        try:
+            roll_main(level, str(ref_src), str(ref_dest), root)
+            if earlier == "real-run-with-withdrawn-experiment":
+                withdrawn = roll_tables(dseed + 7, ("x",), n, level, shift=1.0)
+                roll_write(withdrawn, work, level, fmt)
+                roll_main(level, str(work), str(where), root)
+                for (exp, kind) in withdrawn:
+                    (work / ("%s.%s.%ss%s" % (exp, kind, level, fmt))).unlink()
+            break
+        except BaseException as e:
+            err = e
+    else:
+        return {"bad": [("rollup-reference-run-failed", repr(err))], "nontrivial": False}
+    if earlier == "fabricated-results":
+        alien = roll_tables(dseed + 13, ("zz",), n, level, shift=1.5)
+        for (lev, kind), name in roll_result_names(level, fmt, root).items():
+            t = roll_result_layout(alien[("zz", kind)])
+            if fmt:
+                t.to_parquet(where / name, index=False)
+            else:
+                t.to_csv(where / name, sep="\t", index=False)
+    elif earlier == "junk-results":
+        for name in roll_result_names(level, fmt, root).values():
+            (where / name).write_bytes(b"junk without header\nand\tmore\tjunk\n\x00\x01" * 3)
+    before = sorted(os.listdir(where))
+    sub = {"A": str(work), "P": str(parent), "L": str(link), "O": str(other)}
+    tag = ROLL_SPELLINGS[spelling][0]
+    src, dest, cwd = [v.format(**sub) if v is not None else None for v in ROLL_SPELLINGS[spelling][1:]]
+    want = roll_expected(genuine, level)
+    genuine_ids = {str(i) for df in genuine.values() for i in df["PSMId"]}
+    ref = snapshot(ref_dest)
+    note = "; spelling %s: -s %s -d %s (cwd %s); earlier results: %s; directory before the run: %s" % (
+        spelling, src, dest, "unchanged" if cwd is None else cwd, earlier, before)
+    note = note.replace(str(att), "<tmp>")
+    # results matching the input pattern '*.targets|decoys.<level>s' exist in the directory that is read
+    nontrivial = earlier != "none" and level != "psm" and where == work
+    bad = roll_judge(ref_dest, want, genuine_ids, level, fmt, root, None, "clean-separate-directories", "")
+    try:
+        if cwd is not None:
+            os.chdir(cwd)
+        roll_main(level, src, dest, root)
+    except BaseException as e:
+        return {"bad": bad + [("rollup-run-fails%s-%s:%s" % ("-on-leftovers" if earlier != "none" else "",
+                                                            type(e).__name__, tag),
+                               ("brew_rollup.main raised %r%s" % (e, note)).replace(str(att), "<tmp>"))],
+                "nontrivial": nontrivial}
+    out_dir = other if spelling.startswith("different-directories") else work     # where the results are written
+    bad += roll_judge(out_dir, want, genuine_ids, level, fmt, root, ref, tag, note)
+    return {"bad": bad, "nontrivial": nontrivial}
+
+
+def check_rollup_directory_spellings(tier, seed):
+    cfgs = []
+    fmts, roots = ("", ".parquet"), ("rollup", "all")
+    for i, spelling in enumerate(ROLL_SPELLINGS):
+        if tier == "quick":
+            combos = [("peptide", ROLL_EARLIER[1]), ("precursor", ROLL_EARLIER[2]),
+                      [("precursor", ROLL_EARLIER[1]), ("peptide", "junk-results"), ("peptide", "none"),
+                       ("peptide", ROLL_EARLIER[2]), ("precursor", "junk-results"), ("psm", ROLL_EARLIER[1]),
+                       ("precursor", "none"), ("psm", ROLL_EARLIER[2])][(i + seed) % 8]]
+            combos = [(lv, ea, fmts[(i + j) % 2], roots[((i + j) // 2) % 2]) for j, (lv, ea) in enumerate(combos)]
+        else:
+            combos = [(lv, ea, f, r) for lv in ("peptide", "precursor", "psm") for ea in ROLL_EARLIER for f in fmts
+                      for r in roots]
+        for lv, ea, f, r in combos:
+            cfgs.append(dict(spelling=spelling, level=lv, earlier=ea, fmt=f, root=r, n=30 + (len(cfgs) * 7) % 13,
+                             dseed=seed * 100 + len(cfgs) % 9))
+    ck = ClassCheck("rollup_directory_spellings", "mokapot.brew_rollup.main",
+                    "%d cases (seed %d): %d ways to name the directory that is read and written (same string "
+                    "absolute / relative, absolute vs relative with os.chdir, trailing slash, './' prefix, a '..' "
+                    "component, a symlink, -s / -d omitted with the directory as cwd; 2 with really different "
+                    "directories, earlier results in the source resp. the destination) x %s 48 combinations of --level "
+                    "{peptide, precursor, psm} x earlier results {none, left by a real earlier run that included an "
+                    "experiment since withdrawn, fabricated result files with other rows, junk} x {text, Parquet} x "
+                    "file_root {default, 'all'}; 2 experiments x targets/decoys x 30-42 rows (+1 withdrawn experiment)"
+                    % (len(cfgs), seed, len(ROLL_SPELLINGS),
+                       "all" if tier != "quick" else "3 (peptide + real earlier run, precursor + fabricated "
+                       "results, one rotating) of the"),
+                    "every result file <root>.targets|decoys.<level>s holds exactly the best scoring row of every "
+                    "entity over the genuine input files (independent rollup; no psm id from elsewhere) and is "
+                    "byte-identical to the same call on copies of the inputs in clean, separate directories; the "
+                    "'<root>.temp.<level>s' files the tool leaves behind are ignored; non-trivial = earlier result "
+                    "files matching the input pattern '*.targets|decoys.<level>s' lie in the directory that is read")
+    found = []
+    for cfg, r in zip(cfgs, _pool_map(roll_case, cfgs)):
+        ck.case(cfg, nontrivial=r["nontrivial"])
+        found += [(case_id, msg, cfg) for case_id, msg in r["bad"]]
+    # only 5 classes are listed in the output: those that name a leak first
+    found.sort(key=lambda f: not f[0].startswith("rollup-earlier-results-taken-as-input"))
+    for case_id, msg, cfg in found:
+        ck.violation(case_id, msg, cfg)
+    return ck
+
+
 # ------------------------------------------------------------------------------------------ replay
 def REPLAY(check_name, violation):
     inp = violation["input"]
@@ -828,6 +1080,8 @@ def REPLAY(check_name, violation):
         bad = verify_case(inp)
     elif check_name == "protein_level_cleanup":
         bad = prot_case(inp)["bad"]
+    elif check_name == "rollup_directory_spellings":
+        bad = roll_case(inp)["bad"]
     else:
         return {"violated": None, "note": "no replay for %s" % check_name}
     return {"violated": bool(bad), "detail": bad[:5]}
@@ -837,7 +1091,8 @@ if __name__ == "__main__":
     a = args()
     np.random.seed(a.seed)
     emit([check_stale_files(a.tier, a.seed), check_failed_earlier_runs(a.tier, a.seed),
-          check_verify_step(a.tier, a.seed), check_protein_level_cleanup(a.tier, a.seed)],
+          check_verify_step(a.tier, a.seed), check_protein_level_cleanup(a.tier, a.seed),
+          check_rollup_directory_spellings(a.tier, a.seed)],
          ["faults are injected by replacing DataFrame.to_csv, pyarrow.parquet.ParquetWriter.write_table, "
           "pathlib.Path.unlink and os.unlink; writes that bypass these four calls are not fault points",
           "an injected OSError in Path.unlink is swallowed by the cleanup of create_sorted_file_iterator (the earlier "
@@ -846,5 +1101,11 @@ if __name__ == "__main__":
           "input in protein_level_cleanup (Parquet input with proteins fails on its own in this tree), without "
           "fault injection",
           "brew_rollup leaves '<root>.temp.<level>s' files behind after success: recorded as an observation in "
-          "DESIGN.md, not tested here",
+          "DESIGN.md, not tested here (rollup_directory_spellings ignores these files)",
+          "rollup_directory_spellings calls brew_rollup.main in-process (os.chdir for relative spellings, restored "
+          "afterwards) on generated result-file-like tables (columns PSMId [precursor] peptide score q-value "
+          "posterior_error_prob proteinIds, tie-free scores); --level modifiedpeptide / peptidegroup and earlier "
+          "results of the other file type (text vs Parquet) are not exercised; with really different directories "
+          "result files of an earlier rollup that lie in the source directory count as leftovers that must not be "
+          "read (property text: files left in the source directory by earlier runs)",
           "the CLI verify step is run as extracted code with stub config/logging objects, not through main()"])
